@@ -11,7 +11,7 @@ import itertools
 import random
 import sys
 
-from .. import adeck, core
+from .. import adeck, core, pipeline
 from . import common_bool, common_univ
 
 KINDS = {'spurious', 'unowned', 'multi', 'wrongid', 'wrongprov', 'crash', 'void_not_m0',
@@ -66,6 +66,16 @@ def main():
             chk.violation(sig, {'text': rec['text'], 'opts': meta[tid]['opts'], 'error': err, 'deck': deck,
                                 'clauses': 'owner,compo', 'point2': deck['pts'][k - 1] if k else None})
     chk.cov['distinct_nontrivial'] = sum(1 for s in texts.values() if len(s) >= 2)
+    # per-pass contracts (Pipeline.tla), incl. "de-duplication merges two numbers only if same surface"
+    uniq = {}
+    for tid, d in nd.items():
+        uniq.setdefault(meta[tid]['deck_index'], d)
+    core.lap('final-file validation')
+    nst = pipeline.check_decks(chk, list(uniq.values()),
+                               lambda d, r: [adeck.lattice_opts(d), adeck.lattice_opts(d) + ['--always-inline-filling', '--always-inline-filled'],
+                                             adeck.lattice_opts(d) + ['--max-inline-score', '0']], chk.seed)
+    chk.cov['traces_validated_against_impl'] += chk.extra.get('pipeline_traces', 0)
+    core.lap('per-pass validation (%d stage states)' % nst)
     ids = sorted(recs)
     for tid in ids[:1] + ids[len(ids) // 2:len(ids) // 2 + 2]:
         chk.sample({'deck_text': recs[tid]['text'], 'opts': meta[tid]['opts'], 'verdict': verdicts.get(tid)})
@@ -75,7 +85,7 @@ def main():
     chk.extra['option_sets_per_deck'] = 12
     chk.extra['exhaustive'] = False
     chk.assumptions += ['all 8 flag combinations per deck; thresholds sampled from %s' % SCORES,
-                        'the merge map of the de-duplication pass is checked through its effect on owners; its direct check needs the dedup hook (see DESIGN.md)']
+                        'the merge map of the de-duplication pass (hook stage dedup) is checked by Pipeline!MergeDefects: merged numbers must have equal sense rows and identical polynomials']
     return chk.finish()
 
 
